@@ -166,6 +166,10 @@ def coq_case(c, r):
                 return None
         if "tau" in cl and not np.isfinite(cl["tau"]):
             return None
+    # loop guard `t < T` evaluated in floats by pygom and exactly by the model: a recorded time within 1e-9 of the
+    # horizon can fall on different sides (accumulated rounding); such paths are not replayed (near-tie exclusion)
+    if any(abs(t - c["T"]) <= 1e-9 * (1 + abs(c["T"])) for t in r["ts"]):
+        return "near-tie"
     changes = None
     for cl in calls:
         if "changes" in cl:
@@ -258,7 +262,9 @@ def drive(ck, pid, limits):
             ck.violation(j[0], j[1], {k: v for k, v in c.items()})
         if "error" not in r and len(r["ns"]) <= 80:
             cc = coq_case(c, r)
-            if cc:
+            if cc == "near-tie":
+                dist["excluded_time_near_horizon"] = dist.get("excluded_time_near_horizon", 0) + 1
+            elif cc:
                 coq_cases.append((cc, c))
     ck.notes["input_distribution"] = dist
     ck.notes["paths_too_long_for_replay"] = excluded
